@@ -135,6 +135,10 @@ def run_harness(crate, harness, timeout_s, mem_gb, outdir, playback=False, slot=
         if "out of memory" in out.lower() or "std::bad_alloc" in out or "memory exhausted" in out.lower():
             res["status"] = "oom"
         return res
+    try:
+        res["goto_file"] = data["harness_metadata"][0]["goto_file"].replace(".symtab.out", ".out")
+    except Exception:
+        res["goto_file"] = None
     r = data["verification_results"]["results"][0]
     res["checks"] = r.get("checks", [])
     for c in data.get("cbmc", []):
@@ -169,6 +173,49 @@ def run_harness(crate, harness, timeout_s, mem_gb, outdir, playback=False, slot=
         m = re.search(r"(Failed Checks:[^\n]*|unsupported[^\n]*|CBMC failed[^\n]*|error:[^\n]*)", out)
         res["why"] = m.group(1)[:200] if m else "verification did not succeed but no check failed"
     return res
+
+
+def unwind_counterexample(res, unwind, timeout_s=600, mem_gb=10):
+    """Kani's concrete playback has no test for a failing *unwinding assertion*. Ask CBMC itself for
+    the trace of that property on the goto binary Kani built, and read the values of the harness'
+    kani::any() calls out of it (the same place Kani takes them from).
+    -> list of byte lists (little endian, one per any()), or None"""
+    gf = res.get("goto_file")
+    if not gf or not os.path.exists(gf):
+        return None
+    out_json = gf + ".unwind_trace.json"
+    cmd = ("cbmc --no-malloc-may-fail --no-undefined-shift-check --no-signed-overflow-check --nan-check "
+           "--no-self-loops-to-assumptions --no-pointer-primitive-check --object-bits 16 --unwind %d "
+           "--unwinding-assertions --sat-solver cadical --slice-formula %s --trace --json-ui > %s 2>/dev/null"
+           % (unwind, gf, out_json))
+    sh(cmd, timeout=timeout_s, mem_gb=mem_gb)
+    try:
+        data = json.load(open(out_json))
+    except Exception:
+        return None
+    finally:
+        try:
+            os.remove(out_json)
+        except OSError:
+            pass
+    for item in data:
+        for r in (item.get("result") or []) if isinstance(item, dict) else []:
+            if r.get("status") != "FAILURE" or ".unwind." not in r.get("property", ""):
+                continue
+            vals = []
+            for st in r.get("trace", []):
+                if st.get("stepType") != "assignment":
+                    continue
+                fn = (st.get("sourceLocation") or {}).get("function", "")
+                if st.get("lhs", "").startswith("goto_symex$$return_value$$") and fn.startswith("kani::any_raw_internal"):
+                    b = (st.get("value") or {}).get("binary")
+                    if not b or len(b) % 8:
+                        return None
+                    n = int(b, 2)
+                    vals.append(list(n.to_bytes(len(b) // 8, "little")))
+            if vals:
+                return vals
+    return None
 
 
 PB_RE = re.compile(
